@@ -11116,17 +11116,21 @@ class Main_Program0(BlockBase):
         table_name = "fparser2:main_program"
         SYMBOL_TABLES.enter_scope(table_name)
 
-        result = BlockBase.match(
-            None,
-            [Specification_Part, Execution_Part, Internal_Subprogram_Part],
-            End_Program_Stmt,
-            reader,
-        )
-
-        SYMBOL_TABLES.exit_scope()
-        if not result:
-            # The match failed so remove the associated symbol table
-            SYMBOL_TABLES.remove(table_name)
+        result = None
+        try:
+            result = BlockBase.match(
+                None,
+                [Specification_Part, Execution_Part, Internal_Subprogram_Part],
+                End_Program_Stmt,
+                reader,
+            )
+        finally:
+            # Always leave the scope, even if an exception (e.g. a
+            # FortranSyntaxError) is propagating.
+            SYMBOL_TABLES.exit_scope()
+            if not result:
+                # The match failed so remove the associated symbol table
+                SYMBOL_TABLES.remove(table_name)
 
         return result
 
